@@ -132,7 +132,9 @@ pub fn finish(mut o: Outcome) -> i32 {
     for f in o.findings.drain(..) {
         // a failure of the harness itself (a prepared prefix that no longer runs, a copy that failed, a scheduler that
         // got stuck) is a machinery error (exit 2), never a verdict about the property
-        if f.clause == "harness" || f.clause.starts_with("machinery") {
+        // (a panic raised in the harness crate's own sources shows a path relative to the crate: " at src/...")
+        let own_panic = f.clause.contains("panic") && f.detail.contains(" at src/") && !f.detail.contains("/repo/src/");
+        if f.clause == "harness" || f.clause.starts_with("machinery") || own_panic {
             if o.machinery_errors.len() < 5 {
                 o.machinery_errors.push(format!("{} [{}]: {}", f.clause, f.program.join("; "), f.detail));
             }
